@@ -8,5 +8,7 @@ class ParentRealpathFs:
         self.fs = fs
 
     def parent_realpath(self, path):
-        parent = os.path.dirname(path)
+        # trailing slashes must not make the entry itself its own parent
+        # ('link/' names the link, like in move_file and OriginalLocation)
+        parent = os.path.dirname(os.path.normpath(path))
         return self.fs.realpath(parent)
